@@ -51,6 +51,7 @@ def applicable(op, shape, g):
 
 def build(op, e):
     import ufl
+    e = ufl.as_ufl(e)       # a generated operand can fold to a Python number (e.g. an operator of two literals)
     if op.startswith("dx"):
         return e.dx(int(op[2:]))
     return getattr(ufl, op)(e)
@@ -107,7 +108,9 @@ class C03(Prop):
                     a = ufl.sin(a) * 0.5
                 if name in ("posRestricted", "negRestricted"):
                     raise ValueError("restricted expressions cannot be point-evaluated")
-                e = mk(a) if ar == 1 else mk(a, b)
+                e = ufl.as_ufl(mk(a) if ar == 1 else mk(a, b))
+                if not ufl.domain.extract_domains(e):
+                    raise ValueError("the operands folded to a literal: no domain, UFL (rightly) cannot take its gradient")
                 return G, g, rng.choice(["grad", "dx0", "nabla_grad"]), e
             except Exception:
                 pass
